@@ -1,8 +1,10 @@
 import Model.Wire
+import Model.WireState
 import Gen.C12
 import Proofs.WireTyped
 import Proofs.WireCanon
 import Proofs.WireBatch
+import Proofs.WireState
 
 /-! # C12 — property theorems (wire encodings round-trip, hashes stable, decoders total) -/
 namespace Spec.C12
@@ -41,6 +43,46 @@ theorem golden_empty_data_bytes : ({} : Data).encode = Gen.C12.emptyDataBytes :=
 theorem golden_empty_commitment : emptyDataHash = Gen.C12.emptyDataCommitment := by decide +kernel
 /-- the constant `dataHashForEmptyTxs` compiled into the node is the commitment of the empty data -/
 theorem golden_empty_constant : emptyDataHash = Gen.C12.dataHashForEmptyTxs := by decide +kernel
+
+/-- the metadata of the golden data on its own (`Metadata.MarshalBinary`) -/
+def gMeta : Metadata := { chainId := "golden-chain", height := 7, time := 1700000000000000000, lastDataHash := List.replicate 32 0x44 }
+theorem golden_meta_bytes : gMeta.encode = Gen.C12.metaBytes ∧ gData.metadata = some gMeta := by decide +kernel
+
+/-- a header with every field set (the first golden header leaves fields 5 and 9 empty), a maximal
+`uint64` and a multi-byte chain id -/
+def gFullHeader : Header :=
+  { gHeader with version := { block := 2 ^ 64 - 1, app := 300 }, lastCommitHash := List.replicate 32 0x5c,
+                 lastResultsHash := List.replicate 32 0x99, chainId := "golden-chain-é" }
+theorem golden_full_header_bytes : gFullHeader.encode = Gen.C12.fullHeaderBytes := by decide +kernel
+theorem golden_full_header_hash : gFullHeader.hash = Gen.C12.fullHeaderHash := by decide +kernel
+theorem golden_full_header_decode : Header.decode Gen.C12.fullHeaderBytes = some gFullHeader := by decide +kernel
+
+/-- states: every field set with non-zero nanoseconds; a time before the epoch (negative seconds are a
+10-byte varint); the zero `State{}` (`time.Time{}` is year 1: seconds −62135596800) -/
+def gState : State :=
+  { version := { block := 11, app := 3 }, chainId := Bytes.ofString "golden-chain", initialHeight := 1,
+    lastBlockHeight := 42, lastBlockTime := { sec := 1700000000, nsec := 123456789 }, daHeight := 17,
+    lastResultsHash := List.replicate 32 0x77, appHash := Bytes.ofString "app-hash" }
+def gStatePreEpoch : State :=
+  { version := { block := 11 }, chainId := Bytes.ofString "golden-chain", initialHeight := 5, lastBlockHeight := 4,
+    lastBlockTime := { sec := -5, nsec := 999999999 }, daHeight := 1 }
+theorem golden_state_bytes : gState.encode? = some Gen.C12.stateBytes := by decide +kernel
+theorem golden_state_decode : State.decode Gen.C12.stateBytes = some gState := by decide +kernel
+theorem golden_state_pre_epoch_bytes : gStatePreEpoch.encode? = some Gen.C12.statePreEpochBytes := by decide +kernel
+theorem golden_state_pre_epoch_decode : State.decode Gen.C12.statePreEpochBytes = some gStatePreEpoch := by decide +kernel
+theorem golden_state_zero_bytes : ({} : State).encode? = some Gen.C12.stateZeroBytes := by decide +kernel
+theorem golden_state_zero_decode : State.decode Gen.C12.stateZeroBytes = some {} := by decide +kernel
+
+/-- cache files (`pkg/cache` `SaveToDisk`, `items_by_height.gob` of a cache holding the golden signed
+header / the golden data at height 7): the gob framing is pinned as bytes (`golden/C12.lean`) and not
+modelled; what is proved is that the file ends with exactly the value's own `MarshalBinary` bytes —
+gob stores a `BinaryMarshaler` as the bytes it returns. -/
+theorem golden_cache_header_file :
+    Gen.C12.cacheHeaderItemsFile.drop (Gen.C12.cacheHeaderItemsFile.length - gSignedHeader.encode.length) =
+      gSignedHeader.encode := by decide +kernel
+theorem golden_cache_data_file :
+    Gen.C12.cacheDataItemsFile.drop (Gen.C12.cacheDataItemsFile.length - gData.encode.length) = gData.encode := by
+  decide +kernel
 
 /-! ## 1. Varints (`protowire.AppendVarint` / `ConsumeVarint`) -/
 
@@ -186,7 +228,11 @@ example : SignedHeader.decode (fun _ => false) gSignedHeader.encode = none := by
 /-! ## 4. Hashes, commitment, signature payload -/
 
 /-- the DA commitment depends on the ordered transaction list only (the converse — different
-lists give different commitments — is collision resistance of SHA-256 and is not claimed) -/
+lists give different commitments — is collision resistance of SHA-256 and is not claimed).
+These two are `rfl` on the model's own definition of `daCommitment`; that this definition is what
+`Data.DACommitment()` computes is tied by the stream (every `enc-data` / `dec-data` / `enc-sd` line
+compares `dac=` of the real code with the model, and the monitor `C12/commitment/depends-on-metadata`
+re-computes it with other metadata on the real code) and by `golden_data_commitment`. -/
 theorem commitment_ignores_metadata (d : Data) (m : Option Metadata) :
     d.daCommitment = ({ d with metadata := m } : Data).daCommitment := rfl
 
@@ -324,11 +370,160 @@ theorem batch_decode_total_canonical (bs : Bytes) :
 example : Producer.bytesToBatchData [1, 0, 0] = none ∧ Producer.bytesToBatchData [2, 0, 0, 0, 9] = none ∧
     Producer.bytesToBatchData [1, 0, 0, 0, 9, 0, 0, 0, 0] = some [[9], []] := by decide
 
+/-- the encoder writes the length modulo `2^32` (`uint32(len(data))` in Go, `Bytes.le 4` here), so the
+hypothesis of `batch_roundtrip` is exact: a list round-trips **iff** every entry fits the prefix.  An
+entry of `2^32` bytes or more is silently mis-framed by `convertBatchDataToBytes`; it cannot be built
+in a test (4 GiB), so that the Go encoder really truncates is an assumption read off the source
+(`block/manager.go`: `binary.LittleEndian.PutUint32(lengthBytes, uint32(len(data)))`). -/
+theorem batch_roundtrip_iff (bd : List Bytes) :
+    Producer.bytesToBatchData (Producer.batchDataToBytes bd) = some bd ↔ ∀ d ∈ bd, d.length < 2 ^ 32 :=
+  ⟨fun h => (Producer.bytesToBatchData_dec h).2, batch_roundtrip bd⟩
+
 theorem golden_batch_bytes :
     Producer.batchDataToBytes [Bytes.ofString "ab", [], Bytes.ofString "cde"] = Gen.C12.batchDataBytes := by
   decide +kernel
 theorem golden_batch_decode :
     Producer.bytesToBatchData Gen.C12.batchDataBytes = some [Bytes.ofString "ab", [], Bytes.ofString "cde"] := by
   decide +kernel
+
+/-! ## 7. State (`types.State` ↔ `pb.State`; `pkg/store` `UpdateState` / `GetState`)
+
+`LastBlockTime` is a `time.Time`; on the wire it is a `google.protobuf.Timestamp` (seconds : int64,
+nanos : int32).  `GoTime` is the instant `(t.Unix(), t.Nanosecond())`.  Neither `ToProto` nor
+`FromProto` nor the store calls `CheckValid`, so the range is Go's, not timestamppb's (years 1 … 9999):
+every `int64` second count round-trips.  Location and monotonic reading are not carried (`AsTime`
+returns UTC): see §9. -/
+
+/-- int64 / int32 fields: two's complement through the varint -/
+theorem timestamp_roundtrip (t : Timestamp) (h : t.WF) : Timestamp.decode t.encode = some t :=
+  Timestamp.decode_encode h
+example : Timestamp.decode (Timestamp.encode { seconds := -2 ^ 63, nanos := -2 ^ 31 }) =
+    some { seconds := -2 ^ 63, nanos := -2 ^ 31 } := timestamp_roundtrip _ (by decide)
+example : (Timestamp.encode { seconds := -1 }).length = 11 := by decide +kernel   -- 10-byte varint
+
+/-- `timestamppb.New` then `AsTime` is the identity on every instant Go can represent -/
+theorem time_roundtrip (t : GoTime) (h : t.WF) : (tsNew t).asTime = t := asTime_tsNew h
+example : (tsNew GoTime.zero).asTime = GoTime.zero := time_roundtrip _ GoTime.zero_wf
+
+/-- `time.Unix` on arbitrary nanoseconds: floor division, Euclidean remainder, the seconds wrap like
+Go's `int64`; the result is always normalised -/
+theorem time_unix_normalises (s n : Int) (h1 : -two63 ≤ s) (h2 : s < two63) :
+    timeUnix s n = { sec := wrapI64 (s + n / 1000000000), nsec := (n % 1000000000).toNat } ∧ (timeUnix s n).WF :=
+  ⟨timeUnix_spec s n h1 h2, timeUnix_wf n h1 h2⟩
+example : timeUnix 5 (-1) = { sec := 4, nsec := 999999999 } := by decide +kernel
+example : timeUnix 5 2000000001 = { sec := 7, nsec := 1 } := by decide +kernel
+example : timeUnix (2 ^ 63 - 1) 1999999999 = { sec := -2 ^ 63, nsec := 999999999 } := by decide +kernel  -- wraps
+
+/-- **round trip**: every state whose integers are `uint64`s, whose time is a Go instant and whose
+chain id is valid UTF-8 is encoded without error and decodes to itself -/
+theorem state_roundtrip (s : State) (hw : s.WF) (hu : validUtf8 s.chainId = true) :
+    ∃ bs, s.encode? = some bs ∧ State.decode bs = some s := State.decode_encode hw hu
+example : gState.WF ∧ validUtf8 gState.chainId = true := by decide +kernel
+/-- also far outside timestamppb's range: year 292277026596 is not `valid`, and round-trips -/
+example : let s : State := { lastBlockTime := { sec := 2 ^ 63 - 1, nsec := 999999999 } }
+    s.WF ∧ (tsNew s.lastBlockTime).valid = false ∧ (s.encode?.bind State.decode) = some s := by decide +kernel
+
+/-- a chain id that is not UTF-8: the encoder refuses (protobuf-go checks proto3 strings on marshal);
+`UpdateState` returns the error and writes nothing (stream monitor `store-accepted-unencodable`) -/
+theorem state_not_utf8_refused (s : State) (hu : validUtf8 s.chainId = false) : s.encode? = none :=
+  State.encode?_none hu
+example : ({ chainId := [0xff] } : State).encode? = none := by decide +kernel
+
+/-- **arbitrary bytes**: the decoder is total; what it accepts is in range, has a UTF-8 chain id and a
+normalised time, re-encodes without error and decodes to itself — no hypothesis on the input -/
+theorem state_decode_total_canonical (bs : Bytes) :
+    State.decode bs = none ∨
+    ∃ s, State.decode bs = some s ∧ s.WF ∧ validUtf8 s.chainId = true ∧
+      ∃ bs', s.encode? = some bs' ∧ State.decode bs' = some s := by
+  cases h : State.decode bs with
+  | none => exact .inl rfl
+  | some s => exact .inr ⟨s, rfl, (State.decode_wf h).1, (State.decode_wf h).2, State.decode_canon h⟩
+-- negative nanoseconds are normalised; an absent timestamp is `time.Time{}`; an over-long `int32` is truncated
+example : State.decode [0x2a, 0x0d, 0x08, 0x05, 0x10, 0xff, 0xff, 0xff, 0xff, 0xff, 0xff, 0xff, 0xff, 0xff, 0x01] =
+    some { lastBlockTime := { sec := 4, nsec := 999999999 } } := by decide +kernel
+example : State.decode [] = some {} ∧ State.decode [0x12, 0x01, 0xff] = none := by decide +kernel
+example : State.decode [0x2a, 0x07, 0x10, 0x81, 0x80, 0x80, 0x80, 0x80, 0x01] =
+    some { lastBlockTime := { sec := 0, nsec := 1 } } := by decide +kernel
+
+/-! ## 8. Chain ids that are not UTF-8
+
+A Go string holds any bytes; the typed messages of the model carry `String`s, i.e. valid UTF-8.  The
+`…Go` functions take the raw bytes.  protobuf-go refuses an invalid chain id on marshal **and** on
+unmarshal (`Header.decode`, `Metadata.decode`, `State.decode` return `none`: examples in §5, §7). -/
+
+/-- on UTF-8 the Go-level functions are the model's -/
+theorem header_marshal_go_utf8 (h : Header) :
+    h.marshalGo (utf8 h.chainId) = some h.encode ∧ h.hashGo (utf8 h.chainId) = h.hash := Header.marshalGo_self h
+
+/-- not UTF-8: `MarshalBinary` fails cleanly and `Header.Hash` returns nil (no hash) -/
+theorem header_not_utf8_refused (h : Header) (cid : Bytes) (hu : validUtf8 cid = false) :
+    h.marshalGo cid = none ∧ h.hashGo cid = [] := Header.marshalGo_none hu
+example : gHeader.marshalGo [0xff, 0x61] = none := by decide +kernel
+
+/-- full statement for the hash of `Data`: different values have different hash inputs (so equal hashes
+are SHA-256 collisions) — **false** of the current code -/
+def C12_full_data_hash_input_injective : Prop :=
+  ∀ (d d' : Data) (cid : Bytes), d.WF → d'.WF → d ≠ d' → d.hashInputGo cid ≠ d'.hashInputGo cid
+
+/-- finding `C12/hash/data-hash-ignores-marshal-error`: `Data.Hash` ignores the marshal error and hashes
+what `proto.Marshal` left in its buffer — tag and size of the metadata and the chain-id field, nothing
+else — so data with the same (invalid) chain id and an equally long metadata encoding share a hash,
+whatever their transactions -/
+def badCidDataA : Data := { metadata := some { height := 5, time := 7, lastDataHash := [9] }, txs := [[0x61]] }
+def badCidDataB : Data := { metadata := some { height := 6, time := 8, lastDataHash := [7] }, txs := [[0x62], [0x63]] }
+
+theorem C12_full_data_hash_input_injective_fails : ¬ C12_full_data_hash_input_injective := by
+  intro h
+  exact absurd (h badCidDataA badCidDataB [0xff, 0x61] (by decide +kernel) (by decide +kernel) (by decide))
+    (by decide +kernel)
+theorem data_hash_not_utf8_collision : badCidDataA.hashGo [0xff, 0x61] = badCidDataB.hashGo [0xff, 0x61] ∧
+    badCidDataA.daCommitment ≠ badCidDataB.daCommitment := by decide +kernel
+
+/-- the cause, in general: with a chain id that is not UTF-8 the hash input is independent of the transactions -/
+theorem data_hash_input_not_utf8 (m : Metadata) (cid : Bytes) (hu : validUtf8 cid = false) (txs txs' : List Bytes) :
+    ({ metadata := some m, txs := txs } : Data).hashInputGo cid = ({ metadata := some m, txs := txs' } : Data).hashInputGo cid := by
+  rw [Data.hashInputGo_invalid m cid hu, Data.hashInputGo_invalid m cid hu]
+
+/-- what holds: for values whose chain id is UTF-8 (every value a decoder returns, every value built
+from a genesis file) the Go-level hash is the model's, and different values have different hash inputs -/
+theorem data_hash_input_injective_partial (d d' : Data) (cid cid' : Bytes) (hw : d.WF) (hw' : d'.WF)
+    (hc : ∀ m, d.metadata = some m → cid = utf8 m.chainId) (hc' : ∀ m, d'.metadata = some m → cid' = utf8 m.chainId)
+    (hne : d ≠ d') : d.hashGo cid = d.hash ∧ d'.hashGo cid' = d'.hash ∧ d.hashInputGo cid ≠ d'.hashInputGo cid' := by
+  have key : ∀ (x : Data) (c : Bytes), (∀ m, x.metadata = some m → c = utf8 m.chainId) →
+      x.marshalGo c = .ok x.encode ∧ x.hashGo c = x.hash := by
+    intro x c hx
+    cases hm : x.metadata with
+    | none => exact Data.marshalGo_nometa x c hm
+    | some m => rw [hx m hm]; exact Data.marshalGo_utf8 x m hm
+  have a := key d cid hc
+  have b := key d' cid' hc'
+  refine ⟨a.2, b.2, ?_⟩
+  simp only [Data.hashInputGo, a.1, b.1]
+  exact fun e => hne (data_encode_injective d d' hw hw' e)
+
+/-! ## 9. nil vs empty
+
+The property's "equal value" is equality of what the fields hold: the model (and `bytes.Equal`, the
+wire format, hashing, signature verification, every consumer of decoded values) identifies a nil and
+an empty slice.  The repository's own round-trip tests compare with testify's `assert.Equal`
+(`reflect.DeepEqual`), which does not; `TestTxsRoundtrip` asserts that nil transactions come back as
+`Txs{}`.  Exactly where Go tells the two apart after a round trip (`deq=` of the stream, predicted by
+the driver from these definitions): -/
+
+/-- a `bytes` field keeps its contents; it comes back **nil iff it is empty** — so `DeepEqual` holds
+iff the field was not an empty non-nil slice (last header hash, data hash, app hash, signature,
+signer address, `LastDataHash`, `LastResultsHash`, …) -/
+theorem bytes_field_nilness (g : GoSlice) : g.rt.bytes = g.bytes ∧ (g.rt = g ↔ g ≠ some []) ∧ g.rt.rt = g.rt :=
+  ⟨GoSlice.rt_bytes g, GoSlice.rt_eq_iff g, GoSlice.rt_rt g⟩
+example : GoSlice.rt (some []) = none ∧ GoSlice.rt none = none ∧ GoSlice.rt (some [1]) = some [1] := by decide
+
+/-- the transaction list keeps its contents; it **never comes back nil** (`byteSlicesToTxs` returns
+`Txs{}`; `isValidSignedData` relies on it) and no transaction comes back nil — so `DeepEqual` holds iff
+the list was not nil and held no nil transaction -/
+theorem txs_nilness (t : GoTxs) :
+    t.rt.list.map GoSlice.bytes = t.list.map GoSlice.bytes ∧ t.rt ≠ none ∧
+    (t.rt = t ↔ t ≠ none ∧ ∀ x ∈ t.list, x ≠ none) :=
+  ⟨GoTxs.rt_bytes t, by simp [GoTxs.rt], GoTxs.rt_eq_iff t⟩
+example : GoTxs.rt none = some [] ∧ GoTxs.rt (some [none, some [1]]) = some [some [], some [1]] := by decide
 
 end Spec.C12
